@@ -315,6 +315,9 @@ def check(ctx):
             totals["submodule-loops"] = totals.get("submodule-loops", 0) + c23w.submodule_loops(ctx, ex, cls, cn)
             totals["decoding"] = totals.get("decoding", 0) + c23w.ilvt_decoding(ctx, ex, cls, cn)
             totals["coding"] = totals.get("coding", 0) + c23w.coding_tables(ctx, ex, cls, cn)
+            from . import c23v
+
+            totals["index-typing"] = totals.get("index-typing", 0) + c23v.index_typing(ctx, comp, ex, cls, cn)
             if cls == "MultiportILVTMemory":
                 from . import c23y
 
